@@ -121,6 +121,36 @@ def _is_none(body, rv, depth=0):
     return False
 
 
+def _some_pair(body, rv, depth=0):
+    """(name AP, index AP) when rv is / moves `Some((name, idx))`."""
+    if rv["k"] == "use" and "p" in rv["op"] and not rv["op"]["p"].get("p") and depth < 4:
+        defs = body.defs_of(rv["op"]["p"]["l"])
+        if len(defs) == 1 and isinstance(defs[0][2], dict):
+            return _some_pair(body, defs[0][2], depth + 1)
+        return None
+    if rv["k"] == "agg" and rv.get("variant") == "Some" and rv.get("ops"):
+        o = rv["ops"][0]
+        if "p" in o and not o["p"].get("p"):
+            defs = body.defs_of(o["p"]["l"])
+            if len(defs) == 1 and isinstance(defs[0][2], dict) and defs[0][2]["k"] == "agg" and defs[0][2].get("agg") == "tuple" and len(defs[0][2]["ops"]) == 2:
+                a, b_ = defs[0][2]["ops"]
+                return an.trace_operand(body, Operand(a)), an.trace_operand(body, Operand(b_))
+    return None
+
+
+def _cache_refresh_before(body, writers, site_bb, name_ap, idx_ap):
+    """Is the block `site_bb` dominated by `last_variable_index = Some((name, idx))` with these access paths, or by a reset to None?"""
+    for bb, rv, st in writers:
+        if not (bb == site_bb or body.dominates(bb, site_bb)):
+            continue
+        if _is_none(body, rv):
+            return "reset"
+        pr = _some_pair(body, rv)
+        if pr is not None and pr[0] == name_ap and (idx_ap is None or pr[1] == idx_ap):
+            return "refresh"
+    return None
+
+
 def rule_c(ctx):
     r = RuleResult("C03-c", "the variable-slot cache is invalidated whenever a scope is popped or variables are removed, and only the lookup/insert functions write it")
     prog = ctx.prog()
@@ -177,6 +207,56 @@ def rule_c(ctx):
             else:
                 r.violate(key, "%s removes variables / pops a scope (%s) but can return without resetting last_variable_index" % (b.path, an.tail2(c.callee)), c.loc())
     r.floor("scope-shrinking sites", n, 2)
+    # inserting a variable must not leave a cached slot of the same name pointing at an outer scope: every insertion into a
+    # scope map is preceded by `last_variable_index = Some((name, idx))` (or a reset), happens at the global index 0 (never
+    # inside a cached slot), or the obligation is discharged in the same way at every call of the raw primitive
+    ni = 0
+    prims = {}
+    for b in prog.bodies.values():
+        if not b.root.startswith(G + "evaluate::scope::Scopes::") or b.is_closure():
+            continue
+        for c in b.calls():
+            if an.tail2(c.callee) == "BTreeMap::insert" and any("value::Value" in a for a in c.fn_args + c.res_args) and any("common::Identifier" in a for a in c.fn_args + c.res_args):
+                prims.setdefault(b.path, []).append(c)
+    for path, sites in sorted(prims.items()):
+        b = prog.bodies[path]
+        mine = [(bb, rv, st) for bb, rv, st in writers.get(b.root, [])]
+        for c in sites:
+            ni += 1
+            name_ap = an.trace_operand(b, c.args[1])
+            how = _cache_refresh_before(b, mine, c.bb, name_ap, None)
+            key = "%s|insert-refreshes-cache" % path
+            if how:
+                r.ok(key, how=how)
+                continue
+            # raw primitive: which parameters carry name and index?
+            if name_ap.root[0] != "arg" or name_ap.proj:
+                r.violate(key, "%s inserts a variable without refreshing last_variable_index and its name is not a plain parameter" % path, c.loc())
+                continue
+            name_param = name_ap.root[1]
+            idx_params = [k for k in range(2, b.argc + 1) if b.local_ty(k) == "usize"]
+            callers = [(cb, cc) for cb in prog.bodies.values() for cc in cb.calls() if path in prog.call_targets(cc)]
+            if not callers or len(idx_params) != 1:
+                r.violate(key, "%s inserts a variable without refreshing last_variable_index (no dominating `= Some((name, idx))`)" % path, c.loc())
+                continue
+            r.ok(key, how="raw primitive: obligation checked at its %d call site(s)" % len(callers))
+            for cb, cc in callers:
+                ni += 1
+                ckey = "%s|calls %s|cache-consistent" % (cb.path, path.rsplit("::", 1)[-1])
+                idx_op = cc.args[idx_params[0] - 1]
+                nm = an.trace_operand(cb, cc.args[name_param - 1])
+                ix = an.trace_operand(cb, idx_op)
+                if ix.root[0] == "const" and str(ix.root[1]) == "0":
+                    r.ok(ckey, how="global scope (index 0) cannot be shadowed by a cached slot")
+                    continue
+                cw = [(bb, rv, st) for bb, rv, st in writers.get(cb.root, [])]
+                how = _cache_refresh_before(cb, cw, cc.bb, nm, ix)
+                if how:
+                    r.ok(ckey, how=how)
+                else:
+                    r.violate(ckey, "%s inserts variable %r at scope index %r through %s without first setting last_variable_index to that (name, index) or "
+                              "resetting it: a cached slot for the same name in an outer scope keeps shadowing the new binding" % (cb.path, nm, ix, path), cc.loc())
+    r.floor("variable insertion sites", ni, 4)
     # the cache hit is validated by name
     for fn in ("find_var", "get_var"):
         b = prog.one("evaluate::scope::Scopes::" + fn)
